@@ -583,6 +583,9 @@ expandfunc(struct macro *m)
 			t = rawnext();
 		}
 		if (p->flags & PARAMSTR) {
+			/* trailing white space of the argument is deleted (C11 6.10.3.2p2) */
+			if (str.len > 1 && ((char *)str.val)[str.len - 1] == ' ')
+				--str.len;
 			arrayaddbuf(&str, "\"", 2);
 			arg[i].str = (struct token){
 				.kind = TSTRINGLIT,
